@@ -167,6 +167,20 @@ def _gen_recv(rng, tier):
             ops.append(['recv', _gen_size(rng, len(stream))])
         else:
             ops.append(['recv_close', rng.choice(['unset', None, 0, 1, 3, 10, len(stream), max(0, len(stream) - 1)])])
+    if tick == 0.0 and rng.random() < 0.35:
+        # per-call timeout overrides and changes of the defaults in mid-stream
+        tchoices = [None, 0, 0.5, 5.0]
+        ops2 = []
+        for op in ops:
+            r = rng.random()
+            if r < 0.12:
+                ops2.append(['settimeout', rng.choice(tchoices)])
+            elif r < 0.2:
+                ops2.append(['setmaxsize', rng.choice([2, 4, 8, 64, 32768, None])])
+            if rng.random() < 0.3:
+                op = op + [{'to': rng.choice(tchoices)}]
+            ops2.append(op)
+        ops = ops2
     return {'mode': 'recv', 'stream': stream.hex(), 'deliveries': deliveries,
             'close_gap': _gen_gap(rng, timeout, rng.random()), 'recv_split': _gen_split(rng),
             'timeout': timeout, 'maxsize': maxsize, 'recvsize': recvsize, 'tick': tick, 'ops': ops}
@@ -324,25 +338,34 @@ def _expected(op, R, default_maxsize):
     raise AssertionError(name)
 
 
+def _op_timeout(op):
+    """Per-call timeout override: ops may end with {'to': value}; absent means use the default."""
+    if op and isinstance(op[-1], dict) and 'to' in op[-1]:
+        return True, op[-1]['to']
+    return False, None
+
+
 def _call(bs, op):
     name = op[0]
+    has_to, to = _op_timeout(op)
+    tkw = {'timeout': to} if has_to else {}
     if name == 'recv_until':
-        kw = {}
+        kw = dict(tkw)
         if op[2] != 'unset':
             kw['maxsize'] = op[2]
         if op[3]:
             kw['with_delimiter'] = True
         return bs.recv_until(bytes.fromhex(op[1]), **kw)
     if name == 'recv_size':
-        return bs.recv_size(op[1])
+        return bs.recv_size(op[1], **tkw)
     if name == 'peek':
-        return bs.peek(op[1])
+        return bs.peek(op[1], **tkw)
     if name == 'recv':
-        return bs.recv(op[1])
+        return bs.recv(op[1], **tkw)
     if name == 'recv_close':
         if op[1] == 'unset':
-            return bs.recv_close()
-        return bs.recv_close(maxsize=op[1])
+            return bs.recv_close(**tkw)
+        return bs.recv_close(maxsize=op[1], **tkw)
     raise AssertionError(name)
 
 
@@ -351,7 +374,8 @@ def _run_recv(case):
     log = core.EventLog(keep=False)
     stream = bytes.fromhex(case['stream'])
     clock = SimClock(log, case.get('tick', 0.0))
-    retry_cap = 40 + 3 * len(stream) + 8 * len(case['deliveries'])
+    total_gap = sum(g for g, _n in case['deliveries']) + (case['close_gap'] or 0.0)
+    retry_cap = 40 + 3 * len(stream) + 8 * len(case['deliveries']) + int(total_gap / 0.25)
     sock = SimSocket(clock, log, stream=stream, inbound=case['deliveries'],
                      close_gap=case['close_gap'], recv_split=case['recv_split'],
                      call_cap=4 * (len(stream) + 1) + 4 * (len(case['ops']) + 1) * retry_cap)
@@ -378,8 +402,21 @@ def _run_recv(case):
                             op=ops[i][0], after=where)
         return None
 
+    cur_timeout, cur_maxsize = case['timeout'], case['maxsize']
     for i, op in enumerate(ops):
         attempts = 0
+        if op[0] == 'settimeout':
+            bs.settimeout(op[1])
+            cur_timeout = op[1]
+            log.add('op', i, 'settimeout', op[1])
+            continue
+        if op[0] == 'setmaxsize':
+            bs.setmaxsize(op[1])
+            cur_maxsize = op[1]
+            log.add('op', i, 'setmaxsize', op[1])
+            continue
+        has_to, to = _op_timeout(op)
+        eff_timeout = to if has_to else cur_timeout
         while True:
             attempts += 1
             nsteps += 1
@@ -398,16 +435,16 @@ def _run_recv(case):
                     classes.add('timeout_with_partial_data')
                     out.probe('timeout_with_partial_data')
                 out.fault('timeout')
-                if case['timeout'] in (None, 0):
-                    out.fail('unexpected-exception', i, 'Timeout with timeout=%r' % (case['timeout'],), op=op[0])
+                if eff_timeout in (None, 0):
+                    out.fail('unexpected-exception', i, 'Timeout with timeout=%r' % (eff_timeout,), op=op[0])
                     break
                 if conserve('Timeout', i):
                     break
                 continue
             except BlockingIOError as e:
                 out.fault('ewouldblock')
-                if case['timeout'] != 0:
-                    out.fail('unexpected-exception', i, 'BlockingIOError with timeout=%r' % (case['timeout'],), op=op[0])
+                if eff_timeout != 0:
+                    out.fail('unexpected-exception', i, 'BlockingIOError with timeout=%r' % (eff_timeout,), op=op[0])
                     break
                 if bs.getrecvbuffer():
                     classes.add('ewouldblock_with_partial_data')
@@ -427,7 +464,7 @@ def _run_recv(case):
                 exc = e
                 val = None
             R = stream[pos:]
-            kind, want, consumed = _expected(op, R, case['maxsize'])
+            kind, want, consumed = _expected(op, R, cur_maxsize)
             got_kind = 'ok' if exc is None else type(exc).__name__
             log.add('ret', i, got_kind, val)
             if kind == 'prefix':      # recv(n)
